@@ -151,6 +151,10 @@ def transport(ctx, report):
     # writers
     for path in ("Enr::<K>::append_rlp_content", "builder::Builder::<K>::rlp_content"):
         f = facts.fn(path)
+        if f is None and path.endswith("append_rlp_content"):
+            # the helper does not exist in this tree: the flattened signing payload writer is examined instead
+            g = facts.fn("Enr::<K>::rlp_content")
+            f = ctx.flat(g) if g is not None else None
         if f is None:
             report.violate("U64", "emit/" + path, "anchor %s not found" % path, config=cfg)
             continue
@@ -164,7 +168,7 @@ def transport(ctx, report):
                 if e.k == "field" and e.a[1] == "seq":
                     hits.append((c.self_ty["s"] if c.self_ty else "?", t.sp, b.idx))
         ok = len(hits) == 1 and hits[0][0] == "u64" and all(an.cfg.dominates(hits[0][2], x) for x in an.cfg.exits)
-        report.check("U64", "emit/" + f.name if f.name else path, ok, "%s emits self.seq exactly once, unconditionally, as u64" % path,
+        report.check("U64", "emit/" + (path.split("::")[-1]), ok, "%s emits self.seq exactly once, unconditionally, as u64" % path,
                      "%s does not emit self.seq exactly once as u64 (found %s)" % (path, hits), fn=f.path, sp=f.span, config=cfg)
     # reader
     decs = [f for f in facts.fns if f.name == "decode" and (f.impl_trait or "").endswith("alloy_rlp::Decodable") and f.impl_self and f.impl_self.get("adt") == "Enr"]
